@@ -147,6 +147,17 @@ UNITS.update({
         "complete": "unbounded: every byte string / every public key object of either variant",
         "timeout": 900,
     },
+    "U-BATCHINV": {
+        "backend": "verus",
+        "template": "contracts/batchinv.vc",
+        "trusted": ["Verus 0.2026.09.13 / Z3; vstd",
+                    "Felt operators, zero/one/is_zero (U-FELT); inverse_or_zero and the existence of inverses in Z_q (finv_facts: discharged by Kani over all residues in U-FELT-INV)",
+                    "operator-assign on Felt equals the operator (U-FELT)"],
+        "assumption_lines": [r"external_body"],
+        "dropped": ["D1: Self := Felt"],
+        "complete": "unbounded: every batch length and content",
+        "timeout": 600,
+    },
     "U-APPROX": {
         "backend": "verus",
         "template": "contracts/approx.vc",
@@ -177,13 +188,13 @@ PROPS = {
     "C12": {
         "title": "Arithmetic modulo q = 12289 is exact and canonical",
         "level": "proof",
-        "quick": ["U-FELT", "U-FELT-INV"],
+        "quick": ["U-FELT", "U-FELT-INV", "U-BATCHINV"],
         "thorough": [],
-        "undecided_clauses": ["batch inversion (inverse.rs) is proved in unit U-BATCHINV once built; until then only the single-element operations are claimed"],
+        "undecided_clauses": [],
         "assumptions": [],
-        "level_text": "Complete proofs on the real compiled code: every operation of Felt is checked against its mathematical definition by Kani over its entire finite input domain (all q^2 operand pairs, all 65536 conversion inputs, all q residues for inversion); harnesses are loop-free, so there is no unwinding bound.",
+        "level_text": "Complete proofs on the real compiled code: every operation of Felt is checked against its mathematical definition by Kani over its entire finite input domain (all q^2 operand pairs, all 65536 conversion inputs, all q residues for inversion); harnesses are loop-free, so there is no unwinding bound. Batch inversion (trait default body at Self := Felt) is proved unbounded in the batch length by Verus on the extracted text: every entry of the result is the inverse (0 for 0) of the corresponding input.",
         "level_note": "Trusted: Kani 0.68 / CBMC 6.11 and their model of rustc MIR and of core's overflowing_add/sub; the property is stated for the Felt type (q = 12289).",
-        "technique": "Kani function-contract harnesses (full-domain, loop-free) on the real crate",
+        "technique": "Kani function-contract harnesses (full-domain, loop-free) on the real crate + Verus loop invariants on the extracted batch inversion",
     },
 }
 
